@@ -258,3 +258,99 @@ def reaching_defs(cfg, exc=True):
             for d, lab in cfg.succs(nid, exc):
                 work.append(d)
     return in_
+
+
+def single_defs(fn):
+    """local name -> value expression, for locals of `fn` that are plain-assigned exactly once (no augmented
+    assignment, no loop / with / handler target, not a parameter)."""
+    import ast as _ast
+    from .core import walk_no_nested as _walk
+    params = {a.arg for a in fn.args.args + fn.args.kwonlyargs + fn.args.posonlyargs}
+    count, val = {}, {}
+    for n in _walk(fn):
+        if isinstance(n, _ast.Name) and isinstance(n.ctx, (_ast.Store, _ast.Del)):
+            count[n.id] = count.get(n.id, 0) + 1
+        if isinstance(n, _ast.Assign) and len(n.targets) == 1 and isinstance(n.targets[0], _ast.Name):
+            val[n.targets[0].id] = n.value
+        elif isinstance(n, _ast.AnnAssign) and isinstance(n.target, _ast.Name) and n.value is not None:
+            val[n.target.id] = n.value
+    return {k: v for k, v in val.items() if count.get(k) == 1 and k not in params}
+
+
+def resolved(fn, expr, depth=4):
+    """A copy of `expr` in which locals of `fn` that are assigned exactly once are replaced by their value
+    expression (recursively, bounded): `x = f(a); return x is not None` reads as `return f(a) is not None`.
+    Only for *matching the shape of a value*; evaluation order is not modelled."""
+    import ast as _ast
+    defs = single_defs(fn)
+
+    class R(_ast.NodeTransformer):
+        def __init__(self, d):
+            self.d = d
+
+        def visit_Name(self, node):
+            if isinstance(node.ctx, _ast.Load) and node.id in defs and self.d > 0:
+                return _ast.copy_location(R(self.d - 1).visit(_detach(defs[node.id])), node)
+            return node
+
+    return R(depth).visit(_detach(expr))
+
+
+def _detach(node):
+    """Structural copy of an AST node without the loader's back-references (safe to deepcopy / transform)."""
+    import ast as _ast
+    if isinstance(node, list):
+        return [_detach(x) for x in node]
+    if not isinstance(node, _ast.AST):
+        return node
+    new = type(node)()
+    for f in node._fields:
+        if hasattr(node, f):
+            setattr(new, f, _detach(getattr(node, f)))
+    for a in ("lineno", "col_offset", "end_lineno", "end_col_offset"):
+        if hasattr(node, a):
+            setattr(new, a, getattr(node, a))
+    if hasattr(node, "_module"):
+        new._module = node._module
+    return new
+
+
+def symbolic_block(stmts, env=None):
+    """Sequential symbolic evaluation of a straight-line block: name -> expression over the block's inputs.
+    Handles `x = e`, `x: T = e`, and `if c: x = e1 [else: x = e2]` (-> conditional expression); expression
+    statements are skipped; stops at the first statement of any other kind.  Returns (env, rest)."""
+    import ast as _ast
+    env = dict(env or {})
+
+    def sub(e):
+        class S(_ast.NodeTransformer):
+            def visit_Name(self, node):
+                if isinstance(node.ctx, _ast.Load) and node.id in env:
+                    return _detach(env[node.id])
+                return node
+        return S().visit(_detach(e))
+
+    def only_assigns(body):
+        return all((isinstance(s, _ast.Assign) and len(s.targets) == 1 and isinstance(s.targets[0], _ast.Name)) or isinstance(s, _ast.Pass) for s in body)
+
+    i = 0
+    for i, st in enumerate(stmts):
+        if isinstance(st, _ast.Assign) and len(st.targets) == 1 and isinstance(st.targets[0], _ast.Name):
+            env[st.targets[0].id] = sub(st.value)
+        elif isinstance(st, _ast.AnnAssign) and isinstance(st.target, _ast.Name) and st.value is not None:
+            env[st.target.id] = sub(st.value)
+        elif isinstance(st, _ast.Expr):
+            continue
+        elif isinstance(st, _ast.If) and only_assigns(st.body) and only_assigns(st.orelse):
+            test = sub(st.test)
+            e1, _ = symbolic_block(st.body, env)
+            e2, _ = symbolic_block(st.orelse, env)
+            for k in set(e1) | set(e2):
+                a, b = e1.get(k), e2.get(k)
+                if a is None or b is None:
+                    continue
+                if _ast.dump(a) != _ast.dump(b):
+                    env[k] = _ast.IfExp(_detach(test), a, b)
+        else:
+            return env, stmts[i:]
+    return env, []
